@@ -115,6 +115,13 @@ def handle (words : List String) : Option String :=
     let d ← unhex doc
     let (fs, e) := outputFormatted (inputOf fail d)
     pure ("f=" ++ (if fs.isEmpty then "_" else String.join (fs.map showF)) ++ " e=" ++ showErr e)
+  | ["outjson", fail, doc] => do
+    let d ← unhex doc
+    let (fs, e) := outputFormatted (inputOf fail d)
+    pure ("j=" ++ jsonOf fs ++ " e=" ++ showErr e)
+  | ["rootjson", tree] => do
+    let t ← treeOf tree
+    pure ("j=" ++ jsonOf [toFormatted t] ++ " e=nil")
   | ["walk", fmt, fail, failAt, doc] => do
     let f ← fmtOf (← unhexList fmt)
     let d ← unhex doc
